@@ -181,7 +181,7 @@ fn fence_acq(execution: &mut Execution) {
     for state in execution.objects.iter_mut::<State>() {
         // Iterate all the stores
         for store in state.stores_mut() {
-            if !store.first_seen.is_seen_by_current(&execution.threads) {
+            if !store.first_seen.is_seen_by_active_thread(&execution.threads) {
                 continue;
             }
 
@@ -886,6 +886,12 @@ impl FirstSeen {
         }
 
         false
+    }
+
+    /// Returns `true` if the active thread itself (not merely a thread in its
+    /// causality) has read or written the store.
+    fn is_seen_by_active_thread(&self, threads: &thread::Set) -> bool {
+        self.0[threads.active_id().as_usize()] != u16::MAX
     }
 
     fn is_seen_before_yield(&self, threads: &thread::Set) -> bool {
